@@ -82,6 +82,10 @@ def body(c):
     c.add_cases(total, keys, traces=total)
     c.cov["schedule_features"] = feats
     c.cov["schedules_with_mixed_snapshot_backup"] = mixed_hits
+    multi = sum(e.get("cases_whose_load_needed_3_or_more_loader_batches", 0) for e in c.cov["engines"])
+    c.cov["loads_spanning_3_or_more_loader_batches"] = multi
+    if multi * 2 < total:
+        raise vlib.Inconclusive("only %d of %d chains were loaded in >= 3 KVLoader batches" % (multi, total))
     if not feats.get("commit_between_producer_starts"):
         raise vlib.Inconclusive("generator produced no schedule with a commit between two producer starts")
     c.cov["rule"] = ("schedules are behaviours of StreamGen in backup mode (TLC -simulate, chains of 2-3 backups, "
